@@ -218,4 +218,51 @@ CLAIMED['C11'] = dict(
     technique='Lean 4 theorems over the processor/resource functions (reusing C09/C01) + monitor + differential correspondence',
 )
 
+CLAIMED['C04'] = dict(
+    text='The reference recurrence is a total Lean function (Ref.D / Ref.E over a serial-line configuration) with proved '
+         'algebra for well-formed parameters: it satisfies the recurrence D(j,k) = max(E(j,k)+c_j, D(j,k-1) for buffers, '
+         'blocking term) verbatim, E(j+1,k) = D(j,k), parts never overtake (monotone in k), no part leaves early, FIFO, blocking '
+         'terms, all values >= 0, sink counts monotone in the horizon; the definition does not mention tie-break weights. '
+         'serial_timing (the executable model\'s received-part times of a serial line equal the reference, for every seed, weight '
+         'modulus, horizon and loop fuel) is PROVED for the source -> sink line for all parameters and budgets by an invariant over '
+         'the event loop (incl. completion of the run and weight independence), and for longer lines only TESTED by kernel '
+         'evaluation on ten line/modulus combinations (theorems named serial_timing_test_*) plus a checker checkB proved sound. '
+         'The general n-station induction is NOT proved. On the real code the statement is evaluated exactly on every run: the '
+         'monitor computes the reference recurrence and compares the entry times of every station of 300+ random serial lines '
+         '(handlers, processors, buffers with capacities and delays, zero cycle times, finite budgets, split runs).',
+    note=BASE_NOTE + ' Partial: general line length not proved (source->sink proved; longer lines tested + checked on the implementation).',
+    technique='Lean 4 reference function + algebra + loop-invariant proof for the shortest line + exact reference monitor on the real code',
+)
+CLAIMED['C06'] = dict(
+    text='Theorems (Props/C06.lean) about the model\'s timing functions for every world: the processing delay is max 0 (cycle + '
+         'one-shot offset) evaluated after the receive callbacks; accepting a part with positive delay adds exactly one live '
+         'finish event at now + delay for the device (offset consumed) and with delay <= 0 finishes at once; the consumed offset '
+         'never carries over (only what this cycle\'s finish callbacks request remains - the stronger "always 0" is refuted by a '
+         'checked example); a maintenance shutdown applies exactly Env.pause to the device\'s events, a failure exactly '
+         'Env.cancel, a restore exactly Env.unpause (then the pass/notify), so by the C07 theorems the remaining delay of the '
+         'finish event is preserved across maintenance (due time shifted by exactly the down time) and after a failure no event '
+         'of the device that existed then ever runs; finishing moves the part to the output and queues the pass attempt. NOT '
+         'proved as one trace theorem over the event loop ("operational work = cycle time exactly when the part moves"): it is '
+         'the composition of these lemmas; checked on implementation traces by the operational-time monitor and by '
+         'correspondence (maintenance-dense family with several shutdowns during one part and failures during a shutdown).',
+    note=BASE_NOTE + ' Exact time arithmetic (dyadic grid).',
+    technique='Lean 4 theorems over accept/schedule/pause/cancel/resume composing C07 + operational-time monitor + differential correspondence',
+)
+CLAIMED['C13'] = dict(
+    text='Theorems (Props/C13.lean) about the model\'s processor state machine for every world: a shut-down processor refuses '
+         'every hand-over and its pass/move actions change nothing; a failure drops exactly the part in process (output, other '
+         'devices and the parts table unchanged), appends its leaves to the lost log, writes exactly one failure record (after '
+         'the resource records) and reports it to each shutdown callback exactly once in registration order (also when it arrives '
+         'during a maintenance shutdown with a part in process - fix F6); repeated shutdown/restore are no-ops; a finished part '
+         'survives failure and maintenance and a restore re-queues its pass attempt; uptime/utilisation as rates: the accounting '
+         'invariant UpInv is preserved by every function that writes the accounting fields, none of them changes the public '
+         'uptime/utilisation at the instant it runs, and when only the clock advances uptime grows by dt iff operational and '
+         'utilisation by dt iff a part is in process on an operational machine. Findings kept as checked examples: initialising a '
+         'machine that is already shut down restarts its uptime clock (model and library agree). NOT proved as an invariant of the '
+         'whole event loop (that no other function writes the accounting fields is by inspection); checked by the integrating '
+         'monitor on implementation traces, the deep-copy probe (finished part leaves after restoration) and correspondence.',
+    note=BASE_NOTE,
+    technique='Lean 4 theorems over the processor state machine (rates formulation) + integrating monitor + probe + differential correspondence',
+)
+
 NOT_CLAIMED = {}
